@@ -24,6 +24,7 @@ def b64(x):
 
 
 def run(c):
+    c.go2coq_sources = ["textmatch.go"]   # private translator build: another family's generator cannot break this check
     thorough = c.tier == "thorough"
     c.rule = ("patterns: every atom, pair and begin/any x literal x end/any triple over pools of literals (plain, case-folded, "
               "[Ff], non-ASCII, U+FFFD, surrogate, with newline), any-variants, anchors (^ $ \\A \\z, (?m)), flags in front of "
